@@ -269,8 +269,8 @@ def run_lines(binary, lines, env=None, timeout=3600, cwd=None):
     """feed `lines` to a line-protocol process; returns list of output lines.
     If the process dies, raises Crash naming the first line without an answer."""
     e = dict(os.environ)
-    e.setdefault("ASAN_OPTIONS", "detect_leaks=0:abort_on_error=0:allocator_may_return_null=1:hard_rss_limit_mb=4096:max_allocation_size_mb=2048")
-    e.setdefault("UBSAN_OPTIONS", "print_stacktrace=1")
+    e.setdefault("ASAN_OPTIONS", "detect_leaks=0:abort_on_error=0:allocator_may_return_null=1:exitcode=86:hard_rss_limit_mb=4096:max_allocation_size_mb=2048")
+    e.setdefault("UBSAN_OPTIONS", "print_stacktrace=1:exitcode=86")
     if env:
         e.update(env)
     data = "\n".join(lines) + "\n"
